@@ -760,6 +760,9 @@ def is_transparent_call(e):
         return True
     if n in ("as_slice", "as_bytes", "as_str", "as_mut_slice") and c.krate in ("core", "alloc", "std", "bytes"):
         return True
+    # x[..] is the whole of x
+    if n in ("index", "index_mut") and c.trait in ("std::ops::Index", "std::ops::IndexMut") and "<std::ops::RangeFull>" in (c.full or ""):
+        return True
     return False
 
 
